@@ -22,7 +22,8 @@ def units(tier):
 
 
 def runner_tasks(tier):
-    return [{"module": "c17", "task": "sample", "kind": "bounded", "clause": "calculator vs direct neutron_sld and documented equations"}]
+    return [{"module": "c17", "task": "sample", "kind": "bounded", "clause": "calculator vs direct neutron_sld and documented equations"},
+            {"module": "stateful", "task": "C17", "name": "stateful", "kind": "bounded", "clause": "tiny non-zero weights / densities are not the zero case"}]
 
 
 REPLAY = {'module': 'c17', 'task': 'replay'}
